@@ -41,7 +41,8 @@ def run(chk):
                          "non-trivial = >=2 candidates and (several jobs placed or something left/blocked), resp. >=2 jobs and "
                          ">=1 batch; distinct by content hash")
     chk.coverage["rule"] = chk.notes["rule"]
-    chk.notes["exhaustive"] = chk.notes.get("input_distribution", {}).get("make_batch", {}).get("scope", {})
+    chk.notes["exhaustive_scope"] = chk.notes.get("input_distribution", {}).get("make_batch", {}).get("scope", {})
+    chk.notes["exhaustive"] = bool(chk.tier == "thorough")   # the <=4-candidate scope is enumerated completely in the thorough tier
     chk.notes["partial"] = [
         "canceled submissions: HpcSubmitter.run skips the group loop; the model covers the not-canceled round (C14 covers the gate)",
         "JADE_SKIP_SORT_BY_TIME (unsorted time-based candidate lists) is exercised at the _make_batch level only; the round model always sorts",
